@@ -442,12 +442,12 @@ theorem exemptOf_dead {e : Event} (h : e.live = false) : exemptOf e = [] := by
 or batches exist, the conservation invariant of C02 holds and the batchers are settled). -/
 theorem G.execG {w : World} (a : Action) (h : G (exemptA a) [] [] w)
     (ha : ∀ d, a = .fail d → (w.dev d).kind = .processor) (hI : InvB w) (hset : Settled w)
-    (hio : IOK w) : G [] [] [] (w.exec a) := by
+    (hio : IOK w) (hgc : C03Z.GC w) : G [] [] [] (w.exec a) := by
   cases a with
   | terminate => exact h
   | script k => exact h.runScriptG hio k
   | finishCycle d => exact h.finishCycle d
-  | passPart d => exact h.passPartG hI hset
+  | passPart d => exact h.passPartG hI hset hgc
   | fail d => exact h.failDevG d (ha d rfl)
   | releaseIfIdle d => exact h.releaseIfIdleG d
   | rmCheck => exact h.rmCheckG hio
@@ -464,7 +464,7 @@ theorem settled_env {w : World} (h : Settled w) (env' : Env) : Settled { w with 
 
 /-- **One step of the event loop preserves the invariant.** -/
 theorem G.stepG {w w' : World} {e : Event} (h : G [] [] [] w) (hI : InvB w) (hset : Settled w)
-    (hio : IOK w) (hst : w.step = some (e, w')) : G [] [] [] w' := by
+    (hio : IOK w) (hgc : C03Z.GC w) (hst : w.step = some (e, w')) : G [] [] [] w' := by
   unfold World.step at hst
   split at hst
   · cases hst
@@ -477,7 +477,7 @@ theorem G.stepG {w w' : World} {e : Event} (h : G [] [] [] w) (hI : InvB w) (hse
     · next hl =>
       rw [exemptOf_live hl] at hpop
       refine hpop.execG _ (fun d hd => ?_) (invB_env hI env') (settled_env hset env')
-        (hio.step (istep_env w env'))
+        (hio.step (istep_env w env')) (hgc.frame rfl rfl rfl)
       exact h.ev e0.act ((C02V.mem_acts _ _).mpr ⟨e0, Or.inl hmem, rfl⟩) d hd
     · next hl =>
       rw [exemptOf_dead (by simpa using hl)] at hpop
